@@ -7,7 +7,8 @@ EXECUTABLE handler `RS.handle` with `handle_in_Step1`, `run_covered`, `run_*` (R
 
 Tie (this file): the `raftsim` engine.  n in {1,3,5} etcd `raft.RawNode`s over `MemoryStorage` with raftexample's Config are
 driven by a seeded adversarial scheduler (tick, campaign, propose, deliver/drop/duplicate/reorder any in-flight message,
-partitions, crash, restart from persisted state, compaction => MsgSnap).  After every event the harness writes the model
+partitions, crash, restart from persisted state, compaction => MsgSnap; two profiles add membership changes and are checked
+by the safety predicates only).  After every event the harness writes the model
 inputs the event amounts to, the node's projection and every emitted message; `lean/RaftDriver.lean` replays the inputs
 through `RS.handle` and compares exactly (lock-step).  The four safety predicates are also evaluated directly on the
 implementation's states after every event (SAFETY-VIOLATION = failing schedule).  Stage A (`CommittedIndex`, `VoteResult`)
@@ -97,7 +98,7 @@ def run(R, ctx):
         R.violation("harness-build", dict(kind="tie-broken", summary="harness does not build: " + (err or "")[-800:]), found_input=False)
         return
     if R.tier == "quick":
-        schedules, events, qa, workers = 152, 250, 3000, 2
+        schedules, events, qa, workers = 190, 250, 3000, 2
     else:
         schedules, events, qa, workers = 4000, 600, 200000, max(2, min(12, (os.cpu_count() or 4) - 2))
     args = ["-schedules", str(schedules), "-events", str(events), "-seed", str(R.seed), "-stageA", str(qa)]
@@ -158,6 +159,13 @@ def run(R, ctx):
         partitions=agg.get("partitions", 0), messages_dropped=agg.get("dropped", 0) + agg.get("lost-overflow", 0),
         messages_duplicated=agg.get("duplicated", 0), cluster_sizes={k: v for k, v in agg.items() if k.startswith("n=")},
         deliveries_by_message_kind={k[5:]: v for k, v in agg.items() if k.startswith("recv-")})
+    sd = [l for l in lines if l.startswith("# E ")]
+    R.extra["stageD_safety_predicates_only"] = dict(
+        schedules=sum(v["schedules"] for k, v in per_profile.items() if k.startswith("member")), events=len(sd),
+        confchanges_proposed={k[11:]: v for k, v in agg.items() if k.startswith("confchange-C")}, confchanges_applied=agg.get("confchange-applied", 0),
+        note="add / add-learner / promote / remove events through ProposeConfChange + ApplyConfChange; not replayed on the model (outside the proved fragment), "
+             "only the safety predicates are evaluated on the RawNodes")
+    R.evaluations += len(sd)
     R.extra["model_inputs_by_kind"] = {k[3:]: v for k, v in summ.items() if k.startswith("in-")}
     R.extra["model_branch_coverage"] = {k[3:]: v for k, v in sorted(summ.items()) if k.startswith("br:")}
     R.extra["messages_checked"] = summ.get("messages", 0)
